@@ -10,6 +10,8 @@ mod rx_font;
 mod rx_cache;
 mod rx_objstm;
 mod rx_prefix;
+mod registry;
+mod rx_dangling;
 
 fn main() {
     let args: Vec<String> = std::env::args().collect();
@@ -29,6 +31,7 @@ fn main() {
         "resolver" => rx_resolver::run(&args[2], &args[3], &opts),
         "objstm" => rx_objstm::run(&args[2], &args[3], &opts),
         "prefix" => rx_prefix::run(&args[2], &args[3], &opts),
+        "dangling" => rx_dangling::run(&args[2], &args[3], &opts),
         "cache" => rx_cache::run(&args[2], &args[3], &opts),
         "widths" => rx_font::run_widths(&args[2], &args[3], &opts),
         "cmap" => rx_font::run_cmap(&args[2], &args[3], &opts),
